@@ -7,29 +7,29 @@ open Gimli Gimli.Spec Gimli.Spec.Line
 abbrev vis (evs : List Ev) : List Ev := evs.filter Ev.visible
 
 /-- running `pre` from the initial registers consumes it exactly, produces `P`, and leaves the
-machine in state `row` — whatever follows -/
-def Reach (h : Params) (pre : Bytes) (row : Row) (P : List Ev) : Prop :=
-  ∀ X, traceLoop h ((pre ++ X).length + 1) (Row.new h) (pre ++ X) =
-    P ++ traceLoop h (X.length + 1) row X
+machine in state `(row, inSeq)` — whatever follows -/
+def Reach (h : Params) (pre : Bytes) (row : Row) (inSeq : Bool) (P : List Ev) : Prop :=
+  ∀ X, traceLoop h ((pre ++ X).length + 1) (Row.new h) false (pre ++ X) =
+    P ++ traceLoop h (X.length + 1) row inSeq X
 
-theorem Reach.nil (h : Params) : Reach h [] (Row.new h) [] := by
+theorem Reach.nil (h : Params) : Reach h [] (Row.new h) false [] := by
   intro X; simp
 
-theorem traceLoop_nil (h : Params) (row : Row) : traceLoop h ([] : Bytes).length.succ row [] = [] := by
-  simp [traceLoop]
-
 /-- the events and the next state produced by one executed instruction -/
-def stepEv (h : Params) (row : Row) (ins : Instr) : List Ev × Row :=
+def stepEv (h : Params) (row : Row) (inSeq : Bool) (ins : Instr) : List Ev × Row × Bool :=
   match execute h row ins with
-  | (row, .err e) => ([.err e], reset h row)
-  | (row, .noEmit) => ([], row)
-  | (row, .emit) => if row.tombstone then ([.hidden row], reset h row) else ([.row row], reset h row)
+  | (row, .err e) => ([.err e], reset h row, inSeq)
+  | (row, .noEmit) => ([], row, inSeq)
+  | (row, .emit) =>
+    if skipRow row inSeq then ([.hidden row], reset h row, inSeq)
+    else ([.row row], reset h row, !row.endSequence)
 
-theorem traceLoop_stepEv (h : Params) (row : Row) (input : Bytes) (ins : Instr) (rest : Bytes)
+theorem traceLoop_stepEv (h : Params) (row : Row) (inSeq : Bool) (input : Bytes) (ins : Instr) (rest : Bytes)
     (hp : parseInstr h input = .ok (ins, rest)) :
-    traceLoop h (input.length + 1) row input =
-      (stepEv h row ins).1 ++ traceLoop h (rest.length + 1) (stepEv h row ins).2 rest := by
-  rw [traceLoop_step h row input ins rest hp]
+    traceLoop h (input.length + 1) row inSeq input =
+      (stepEv h row inSeq ins).1 ++
+        traceLoop h (rest.length + 1) (stepEv h row inSeq ins).2.1 (stepEv h row inSeq ins).2.2 rest := by
+  rw [traceLoop_step h row inSeq input ins rest hp]
   unfold stepEv
   cases hex : execute h row ins with
   | mk r e =>
@@ -38,35 +38,40 @@ theorem traceLoop_stepEv (h : Params) (row : Row) (input : Bytes) (ins : Instr) 
     | noEmit => simp
     | err e => simp
 
-theorem Reach.step (h : Params) (pre : Bytes) (row : Row) (P : List Ev) (hr : Reach h pre row P)
+theorem Reach.step (h : Params) (pre : Bytes) (row : Row) (inSeq : Bool) (P : List Ev)
+    (hr : Reach h pre row inSeq P)
     (c : Bytes) (ins : Instr) (hloc : ∀ X, parseInstr h (c ++ X) = .ok (ins, X)) :
-    Reach h (pre ++ c) (stepEv h row ins).2 (P ++ (stepEv h row ins).1) := by
+    Reach h (pre ++ c) (stepEv h row inSeq ins).2.1 (stepEv h row inSeq ins).2.2
+      (P ++ (stepEv h row inSeq ins).1) := by
   intro X
   have h1 := hr (c ++ X)
-  rw [List.append_assoc, h1, traceLoop_stepEv h row (c ++ X) ins X (hloc X), List.append_assoc]
+  rw [List.append_assoc, h1, traceLoop_stepEv h row inSeq (c ++ X) ins X (hloc X), List.append_assoc]
 
-
-
-theorem stepEv_noEmit (h : Params) (row row' : Row) (ins : Instr)
-    (hex : execute h row ins = (row', .noEmit)) : stepEv h row ins = ([], row') := by
+theorem stepEv_err (h : Params) (row row' : Row) (inSeq : Bool) (ins : Instr) (e : Err)
+    (hex : execute h row ins = (row', .err e)) :
+    stepEv h row inSeq ins = ([.err e], reset h row', inSeq) := by
   unfold stepEv; rw [hex]
 
-theorem stepEv_hidden (h : Params) (row row' : Row) (ins : Instr)
-    (hex : execute h row ins = (row', .emit)) (ht : row'.tombstone = true) :
-    stepEv h row ins = ([.hidden row'], reset h row') := by
+theorem stepEv_noEmit (h : Params) (row row' : Row) (inSeq : Bool) (ins : Instr)
+    (hex : execute h row ins = (row', .noEmit)) : stepEv h row inSeq ins = ([], row', inSeq) := by
+  unfold stepEv; rw [hex]
+
+theorem stepEv_hidden (h : Params) (row row' : Row) (inSeq : Bool) (ins : Instr)
+    (hex : execute h row ins = (row', .emit)) (ht : skipRow row' inSeq = true) :
+    stepEv h row inSeq ins = ([.hidden row'], reset h row', inSeq) := by
   unfold stepEv; rw [hex]; simp [ht]
 
-theorem stepEv_row (h : Params) (row row' : Row) (ins : Instr)
-    (hex : execute h row ins = (row', .emit)) (ht : ¬ row'.tombstone = true) :
-    stepEv h row ins = ([.row row'], reset h row') := by
+theorem stepEv_row (h : Params) (row row' : Row) (inSeq : Bool) (ins : Instr)
+    (hex : execute h row ins = (row', .emit)) (ht : ¬ skipRow row' inSeq = true) :
+    stepEv h row inSeq ins = ([.row row'], reset h row', !row'.endSequence) := by
   unfold stepEv; rw [hex]; simp [ht]
 
 theorem take_prefix (a b : Bytes) : (a ++ b).take ((a ++ b).length - b.length) = a := by
   have : (a ++ b).length - b.length = a.length := by simp
   rw [this]; simp
 
-theorem resume_of_reach (h : Params) (pre : Bytes) (row : Row) (P : List Ev)
-    (hr : Reach h pre row P) (s : Seq) (hs : s.instructions = pre) : resume h s = vis P := by
+theorem resume_of_reach (h : Params) (pre : Bytes) (row : Row) (inSeq : Bool) (P : List Ev)
+    (hr : Reach h pre row inSeq P) (s : Seq) (hs : s.instructions = pre) : resume h s = vis P := by
   unfold resume run trace
   rw [hs, reset_new]
   have := hr []
@@ -74,20 +79,20 @@ theorem resume_of_reach (h : Params) (pre : Bytes) (row : Row) (P : List Ev)
   rw [this]
   simp [traceLoop]
 
-theorem seqLoop_spec (h : Params) : ∀ (fuel : Nat) (row : Row) (input pre : Bytes) (P : List Ev)
+theorem seqLoop_spec (h : Params) : ∀ (fuel : Nat) (row : Row) (inSeq : Bool) (input pre : Bytes) (P : List Ev)
     (cur : List Row) (acc res : List Seq),
-    input.length < fuel → Reach h pre row P → vis P = cur.map Ev.row →
+    input.length < fuel → Reach h pre row inSeq P → vis P = cur.map Ev.row →
     (∀ r ∈ cur, r.endSequence = false) →
-    seqLoop h fuel row input (pre ++ input) (cur.head?.map (·.address)) acc = .ok res →
+    seqLoop h fuel row inSeq input (pre ++ input) (cur.head?.map (·.address)) acc = .ok res →
     ∃ (news : List Seq) (tail : List Row), res = acc.reverse ++ news ∧
-      cur.map Ev.row ++ vis (traceLoop h (input.length + 1) row input) =
+      cur.map Ev.row ++ vis (traceLoop h (input.length + 1) row inSeq input) =
         news.flatMap (resume h) ++ tail.map Ev.row ∧
       (∀ r ∈ tail, r.endSequence = false) ∧ ∀ s ∈ news, SeqOk h s := by
   intro fuel
   induction fuel with
-  | zero => intro row input pre P cur acc res hl; omega
+  | zero => intro row inSeq input pre P cur acc res hl; omega
   | succ fuel ih =>
-    intro row input pre P cur acc res hl hreach hvis hcur hs
+    intro row inSeq input pre P cur acc res hl hreach hvis hcur hs
     rw [seqLoop] at hs
     split at hs
     · -- end of input
@@ -106,8 +111,8 @@ theorem seqLoop_spec (h : Params) : ∀ (fuel : Nat) (row : Row) (input pre : By
         simp only at hs
         obtain ⟨c, hinput, _, hloc⟩ := parseInstr_local h input ins rest hp
         have hc := parseInstr_consumes h input ins rest hp
-        have hstep := traceLoop_stepEv h row input ins rest hp
-        have hreach' := Reach.step h pre row P hreach c ins hloc
+        have hstep := traceLoop_stepEv h row inSeq input ins rest hp
+        have hreach' := Reach.step h pre row inSeq P hreach c ins hloc
         subst hinput
         rw [← List.append_assoc] at hs
         cases hex : execute h row ins with
@@ -117,24 +122,24 @@ theorem seqLoop_spec (h : Params) : ∀ (fuel : Nat) (row : Row) (input pre : By
           | err e => simp at hs
           | noEmit =>
             simp only at hs
-            rw [stepEv_noEmit h row row' ins hex] at hreach' hstep
+            rw [stepEv_noEmit h row row' inSeq ins hex] at hreach' hstep
             simp only [List.append_nil, List.nil_append] at hreach' hstep
-            obtain ⟨news, tail, h1, h2, h3, h4⟩ := ih row' rest (pre ++ c) P cur acc res (by omega) hreach' hvis hcur hs
+            obtain ⟨news, tail, h1, h2, h3, h4⟩ := ih row' inSeq rest (pre ++ c) P cur acc res (by omega) hreach' hvis hcur hs
             exact ⟨news, tail, h1, by rw [hstep]; exact h2, h3, h4⟩
           | emit =>
             simp only at hs
-            by_cases htomb : row'.tombstone = true
+            by_cases htomb : skipRow row' inSeq = true
             · simp only [htomb, ↓reduceIte] at hs
-              rw [stepEv_hidden h row row' ins hex htomb] at hreach' hstep
+              rw [stepEv_hidden h row row' inSeq ins hex htomb] at hreach' hstep
               simp only at hreach' hstep
-              obtain ⟨news, tail, h1, h2, h3, h4⟩ := ih (reset h row') rest (pre ++ c) (P ++ [.hidden row']) cur acc res
+              obtain ⟨news, tail, h1, h2, h3, h4⟩ := ih (reset h row') inSeq rest (pre ++ c) (P ++ [.hidden row']) cur acc res
                 (by omega) hreach' (by simp [vis, List.filter_append, Ev.visible]; exact hvis) hcur hs
               refine ⟨news, tail, h1, ?_, h3, h4⟩
               rw [hstep]
               simp only [vis, List.filter_append, List.filter, Ev.visible, List.nil_append] at h2 ⊢
               exact h2
             · simp only [htomb, Bool.false_eq_true, ↓reduceIte] at hs
-              rw [stepEv_row h row row' ins hex htomb] at hreach' hstep
+              rw [stepEv_row h row row' inSeq ins hex htomb] at hreach' hstep
               simp only at hreach' hstep
               by_cases hend : row'.endSequence = true
               · -- a sequence ends here
@@ -142,29 +147,32 @@ theorem seqLoop_spec (h : Params) : ∀ (fuel : Nat) (row : Row) (input pre : By
                 rw [take_prefix] at hs
                 have hnew : reset h row' = Row.new h := by simp [reset, hend]
                 rw [hnew] at hs hstep
-                obtain ⟨news, tail, h1, h2, h3, h4⟩ := ih (Row.new h) rest [] [] [] _ res (by omega)
+                simp only [hend, Bool.not_true] at hstep
+                obtain ⟨news, tail, h1, h2, h3, h4⟩ := ih (Row.new h) false rest [] [] [] _ res (by omega)
                   (Reach.nil h) (by simp [vis]) (by simp) (by simpa using hs)
                 refine ⟨{ start := (cur.head?.map (·.address)).getD row'.address, «end» := row'.address,
                           instructions := pre ++ c } :: news, tail, by rw [h1]; simp, ?_, h3, ?_⟩
                 · rw [hstep]
                   simp only [List.flatMap_cons]
-                  rw [resume_of_reach h (pre ++ c) _ _ hreach' _ rfl]
+                  rw [resume_of_reach h (pre ++ c) _ _ _ hreach' _ rfl]
                   simp only [vis, List.filter_append, List.filter, Ev.visible, List.map_nil, List.nil_append] at h2 hvis ⊢
                   rw [hvis, h2]
                   simp
                 · intro s hs'
                   rcases List.mem_cons.mp hs' with rfl | hs'
                   · refine ⟨cur, row', ?_, hend, hcur, rfl, ?_⟩
-                    · rw [resume_of_reach h (pre ++ c) _ _ hreach' _ rfl]
+                    · rw [resume_of_reach h (pre ++ c) _ _ _ hreach' _ rfl]
                       simp only [vis, List.filter_append, List.filter, Ev.visible] at hvis ⊢
                       rw [hvis]
                     · cases cur <;> simp
                   · exact h4 s hs'
               · simp only [hend, Bool.false_eq_true, ↓reduceIte] at hs
-                have hs : seqLoop h fuel (reset h row') rest (pre ++ c ++ rest)
+                have hs : seqLoop h fuel (reset h row') true rest (pre ++ c ++ rest)
                     ((cur ++ [row']).head?.map (·.address)) acc = .ok res := by
                   revert hs; cases cur <;> exact id
-                obtain ⟨news, tail, h1, h2, h3, h4⟩ := ih (reset h row') rest (pre ++ c) (P ++ [.row row'])
+                have hnend : (!row'.endSequence) = true := by simpa using hend
+                rw [hnend] at hreach' hstep
+                obtain ⟨news, tail, h1, h2, h3, h4⟩ := ih (reset h row') true rest (pre ++ c) (P ++ [.row row'])
                   (cur ++ [row']) acc res (by omega) hreach'
                   (by simp only [vis, List.filter_append, List.filter, Ev.visible] at hvis ⊢; rw [hvis]; simp)
                   (by intro r hr; rcases List.mem_append.mp hr with hr | hr
@@ -177,13 +185,14 @@ theorem seqLoop_spec (h : Params) : ∀ (fuel : Nat) (row : Row) (input pre : By
                 exact h2
 
 /-- `sequences()`: any fuel above the input length returns normally -/
-theorem seqLoop_normal (h : Params) : ∀ (fuel : Nat) (row : Row) (input seqInput : Bytes) (st : Option Nat)
-    (acc : List Seq), input.length < fuel → (seqLoop h fuel row input seqInput st acc).Normal := by
+theorem seqLoop_normal (h : Params) : ∀ (fuel : Nat) (row : Row) (inSeq : Bool) (input seqInput : Bytes)
+    (st : Option Nat) (acc : List Seq), input.length < fuel →
+    (seqLoop h fuel row inSeq input seqInput st acc).Normal := by
   intro fuel
   induction fuel with
-  | zero => intro row input seqInput st acc hl; omega
+  | zero => intro row inSeq input seqInput st acc hl; omega
   | succ fuel ih =>
-    intro row input seqInput st acc hl
+    intro row inSeq input seqInput st acc hl
     rw [seqLoop]
     split
     · trivial
@@ -199,11 +208,11 @@ theorem seqLoop_normal (h : Params) : ∀ (fuel : Nat) (row : Row) (input seqInp
           | emit =>
             simp only
             split
-            · exact ih _ _ _ _ _ (by omega)
+            · exact ih _ _ _ _ _ _ (by omega)
             · split
-              · exact ih _ _ _ _ _ (by omega)
-              · exact ih _ _ _ _ _ (by omega)
-          | noEmit => exact ih _ _ _ _ _ (by omega)
+              · exact ih _ _ _ _ _ _ (by omega)
+              · exact ih _ _ _ _ _ _ (by omega)
+          | noEmit => exact ih _ _ _ _ _ _ (by omega)
           | err e => trivial
       | err e => trivial
       | panic w => rw [hp] at hn; exact absurd hn (by simp [Out.Normal])
@@ -215,7 +224,7 @@ theorem sequences_spec (h : Params) (bs : Bytes) (seqs : List Seq) (hs : sequenc
       (∀ r ∈ tail, r.endSequence = false) ∧ ∀ s ∈ seqs, SeqOk h s := by
   unfold sequences at hs
   rw [reset_new] at hs
-  obtain ⟨news, tail, h1, h2, h3, h4⟩ := seqLoop_spec h (bs.length + 1) (Row.new h) bs [] [] [] [] seqs
+  obtain ⟨news, tail, h1, h2, h3, h4⟩ := seqLoop_spec h (bs.length + 1) (Row.new h) false bs [] [] [] [] seqs
     (by omega) (Reach.nil h) (by simp [vis]) (by simp) (by simpa using hs)
   simp only [List.reverse_nil, List.nil_append] at h1
   subst h1
@@ -258,12 +267,6 @@ theorem definedFiles_decodeAll (h : Params) (fuel : Nat) : ∀ (input : Bytes) (
       | panic w => rw [hp] at hd; simp at hd
       | diverge => rw [hp] at hd; simp at hd
 
-theorem noHiddenEnd_map_row (rs : List Row) : NoHiddenEnd (rs.map Ev.row) := by
-  induction rs with
-  | nil => simp [NoHiddenEnd]
-  | cons r rs ih => simp [NoHiddenEnd, ih]
-
-
 theorem monoObserved_last (size : Nat) (rows : List Row) (last : Row) : ∀ lo,
     (∀ r ∈ rows, r.endSequence = false) →
     MonoObserved size lo (rows.map Ev.row ++ [Ev.row last]) →
@@ -285,5 +288,43 @@ theorem monoObserved_last (size : Nat) (rows : List Row) (last : Row) : ∀ lo,
     · exact h1
     · exact h2 x hx
 
+
+/-- in a monotone sequence every row after the first is at or above the first -/
+theorem monoObserved_first (size : Nat) (rows : List Row) (last : Row) : ∀ lo,
+    (∀ r ∈ rows, r.endSequence = false) →
+    MonoObserved size lo (rows.map Ev.row ++ [Ev.row last]) →
+    match rows with
+    | [] => True
+    | r0 :: rs => (∀ r ∈ rs, r0.address ≤ r.address) ∧ r0.address ≤ last.address := by
+  intro lo hne h
+  cases rows with
+  | nil => trivial
+  | cons r0 rs =>
+    simp only [List.map_cons, List.cons_append, MonoObserved] at h
+    have hr := hne r0 List.mem_cons_self
+    rw [hr] at h
+    simp only [Bool.false_eq_true, ↓reduceIte] at h
+    have hne' : ∀ r ∈ rs, r.endSequence = false := fun x hx => hne x (List.mem_cons_of_mem _ hx)
+    have key : ∀ (rs : List Row) (lo : Nat), (∀ r ∈ rs, r.endSequence = false) →
+        MonoObserved size lo (rs.map Ev.row ++ [Ev.row last]) →
+        (∀ r ∈ rs, lo ≤ r.address) ∧ lo ≤ last.address := by
+      intro rs
+      induction rs with
+      | nil =>
+        intro lo _ h
+        simp only [List.map_nil, List.nil_append, MonoObserved] at h
+        exact ⟨by simp, h.1⟩
+      | cons r rs ih =>
+        intro lo hne h
+        simp only [List.map_cons, List.cons_append, MonoObserved] at h
+        have hr := hne r List.mem_cons_self
+        rw [hr] at h
+        simp only [Bool.false_eq_true, ↓reduceIte] at h
+        obtain ⟨h1, h2⟩ := ih r.address (fun x hx => hne x (List.mem_cons_of_mem _ hx)) h.2.2
+        refine ⟨fun x hx => ?_, by omega⟩
+        rcases List.mem_cons.mp hx with rfl | hx
+        · exact h.1
+        · have := h1 x hx; omega
+    exact key rs r0.address hne' h.2.2
 
 end Gimli.Line
